@@ -400,6 +400,71 @@ def c13(ctx):
     return r
 
 
+LEX_KINDS = {'malformed-program', 'skeleton-differs', 'string-count-differs', 'string-not-verbatim', 'marker-not-in-a-string',
+             'hostile-string-changes-outcome', 'runtime-error', 'no-scan-call', 'mdt-mismatch', 'compile-panic', 'render-panic',
+             'iomap-targets-wrong', 'timeout'}
+
+
+def c04(ctx):
+    acc = Acc()
+    import subprocess
+    binp = ctx.t.build('dev')
+    mlen = pick(ctx, 2, 3)
+    trace = '%s/c04.ndjson' % ctx.work
+    cmd = ctx.t.tlc_cmd('c04_gen', 'MC_C04', cfg(['MaxLen = %d' % mlen], ['EmitTree']), workers=8)
+    tl = subprocess.Popen(cmd, cwd=ctx.t.SPEC, stdout=subprocess.PIPE, stderr=subprocess.STDOUT)
+    with open(trace, 'w') as f:
+        rp = subprocess.run([binp, 'compile-trees'], stdin=tl.stdout, stdout=f, stderr=subprocess.PIPE, text=True, timeout=1800)
+    tl.wait()
+    if rp.returncode != 0 or 'Error' in rp.stderr:
+        raise ctx.t.ToolError('tree generation failed: ' + rp.stderr[-400:])
+    verdicts = sem_validate(ctx, acc, 'c04lex', trace, LEX_KINDS, consts='CONSTANT MaxFiles = 4\nCONSTANT Static = FALSE\n', timeout=6000)
+    # literal format text must be PRINTED verbatim: for the format slots the executed outputs are compared too
+    recs = [json.loads(l) for l in open(trace) if l.startswith('{')]
+    for v in verdicts:
+        r = recs[v['idx'] - 1]
+        if r.get('slot', '').startswith('fmt-') and 'outs-mismatch' in v['kinds']:
+            acc.failures.append({'kinds': ['outs-mismatch'], 'tree': r['t'], 'o': r['o'], 'stage': 'c04lex', 'slot': r['slot']})
+    # random longer strings
+    t_sem(ctx, acc, 'c04rand', ['--count', str(pick(ctx, 300, 5000)), '--seed', str(ctx.seed), '--size', '4', '--hostile', '--no-direct', '--paths', 'hostile'],
+          {'malformed-program', 'runtime-error', 'no-scan-call', 'mdt-mismatch', 'compile-panic', 'render-panic', 'iomap-targets-wrong'},
+          consts='CONSTANT MaxFiles = 3\nCONSTANT Static = FALSE\n')
+    r = tv_result(acc, 'all strings up to length %d over the 18-symbol alphabet {" \\ ~ %% ( ) ; # LF U+0001 e-acute a SP * [ \' | TAB} in 15 string-carrying slots (name/iname/path/ipath patterns, pool, xattr name, both -xattr-match arguments, output file names, literal format text at the end / in the middle / without newline, %%{xattr:NAME}, device path), injected through the public constructors; each compared with the same construct carrying a benign marker of the same wildcard class; plus seeded random hostile strings up to length 5 in random trees rendered for hostile device paths' % mlen,
+                  ["oracle: SchemeRead.tla (Guile's lexical syntax incl. its string escape set): exactly two top-level forms, equal skeletons, string literals equal except where the marker stood and decoding to the user string ('~' doubled in format templates), executed outputs equal find's for the format slots"],
+                  level='model_checking')
+    return r
+
+SCOPE_KINDS = {'name-bound-twice', 'use-before-binding', 'captured-by-lambda', 'matcher-count', 'printer-count', 'not-a-let*',
+               'bad-binding', 'truth-mismatch', 'outs-mismatch', 'runtime-error', 'malformed-program', 'tag-sharing', 'tag-duplicate',
+               'iomap-targets-wrong', 'tag-unknown', 'compile-panic', 'no-scan-call', 'timeout'}
+
+
+def c11(ctx):
+    acc = Acc()
+    import subprocess
+    mlen = pick(ctx, 4, 5)
+    st, js = ctx.t.run_tlc_only('c11m', 'MC_Manager', cfg(['MaxLen = %d' % mlen], ['InvDesign']) + 'VIEW View\n', timeout=3000)
+    if st['errors']:
+        raise ctx.t.ToolError('model-level check failed: ' + ' | '.join(st['errors'][:2]))
+    acc.add_stage('M manager machine: all request sequences up to %d over 15 requests, both manager kinds' % mlen, st)
+    # G -> T: every request sequence up to length 3 as an AND chain, compiled by the real code
+    binp = ctx.t.build('dev')
+    trace = '%s/c11.ndjson' % ctx.work
+    cmd = ctx.t.tlc_cmd('c11_gen', 'MC_Manager', cfg(['MaxLen = 3'], ['EmitTree']) + 'VIEW View\n', workers=8)
+    tl = subprocess.Popen(cmd, cwd=ctx.t.SPEC, stdout=subprocess.PIPE, stderr=subprocess.STDOUT)
+    with open(trace, 'w') as f:
+        rp = subprocess.run([binp, 'compile-trees'], stdin=tl.stdout, stdout=f, stderr=subprocess.PIPE, text=True, timeout=1800)
+    tl.wait()
+    if rp.returncode != 0 or 'Error' in rp.stderr:
+        raise ctx.t.ToolError('tree generation failed: ' + rp.stderr[-400:])
+    sem_validate(ctx, acc, 'c11chains', trace, SCOPE_KINDS, consts='CONSTANT MaxFiles = 14\nCONSTANT Static = FALSE\n', timeout=6000)
+    t_sem(ctx, acc, 'c11long', ['--count', str(pick(ctx, 8, 60)), '--seed', str(ctx.seed), '--profile', 'chain', '--size', str(pick(ctx, 100, 300))], SCOPE_KINDS,
+          consts='CONSTANT MaxFiles = 6\nCONSTANT Static = FALSE\n')
+    t_sem(ctx, acc, 'c11short', ['--count', str(pick(ctx, 150, 2000)), '--seed', str(ctx.seed + 1), '--profile', 'chain', '--size', '10'], SCOPE_KINDS,
+          consts='CONSTANT MaxFiles = 40\nCONSTANT Static = FALSE\n')
+    r = tv_result(acc, 'design: all request sequences up to %d over 15 requests (3 patterns equal up to case/wildcard x {cs, ci}, 2 files x 3 terminators, 3 stdout terminators) for both manager kinds with the invariants of Manager.tla; code: every request sequence up to 3 as an AND chain plus seeded chains with up to %d resources in random first-occurrence order with repeats, compiled by the real code; Scope.tla on the real let* (bound once, earlier binding, no capture), number of matcher-like and printer-like bindings (classified by behaviour) equal to Manager.tla for that tree, and execution on distinguishing files' % (mlen, pick(ctx, 100, 300)), [], level='model_checking')
+    return r
+
 
 def front_only(fn, level, rule, assumptions):
     def run(ctx):
@@ -409,7 +474,7 @@ def front_only(fn, level, rule, assumptions):
     return run
 
 
-REGISTRY = {'C01': c01, 'C14': c14, 'C05': c05, 'C06': c06, 'C18': c18, 'C19': c19, 'C02': c02, 'C09': c09, 'C10': c10, 'C12': c12, 'C07': c07, 'C08': c08, 'C13': c13}
+REGISTRY = {'C01': c01, 'C14': c14, 'C05': c05, 'C06': c06, 'C18': c18, 'C19': c19, 'C02': c02, 'C09': c09, 'C10': c10, 'C12': c12, 'C07': c07, 'C08': c08, 'C13': c13, 'C04': c04, 'C11': c11}
 
 
 
